@@ -7,8 +7,8 @@ def strip_times(evs):
     return [{k: v for k, v in e.items() if k not in ("ts", "at", "mtime")} for e in evs]
 
 
-def one_script(ctx, r, depth):
-    st, v, trace = crash.build_state(ctx, r, 5 + r.n(8))
+def one_script(ctx, r, depth, big=0):
+    st, v, trace = crash.build_state(ctx, r, 5 + r.n(8), big=big)
     try:
         for d in range(depth):
             g0 = st.graph()
@@ -88,7 +88,8 @@ def run(ctx):
     framework.check_facts(ctx, ctx.facts, ["with_lock", "writer_calls"])
     r = gen.Rng(ctx.seed * 1000003 + 3)
     for i in range(16 if ctx.quick else 250):
-        one_script(ctx, r.fork(), 3 if ctx.quick else 5)
+        # every third script runs on a log spanning several 64 KiB blocks (the tail repair scans backwards in blocks)
+        one_script(ctx, r.fork(), 3 if ctx.quick else 5, big=([0, 0, 130, 0, 0, 260][i % 6]))
     ctx.cov["rule"] = ("seeded pre-states; alternating (mutating command interrupted by SIGKILL before a random system call | its write cut short at a byte offset) and "
                        "further commands, depth 3 (quick) / 5; after every fault: list/show succeed, earlier events intact, only the interrupted command's events may be "
                        "missing, the next mutation succeeds and is visible, reads succeed after it; distinct = (command, fault kind, depth)")
